@@ -22,11 +22,11 @@ CLAIMED = {
     text="Seeded exploration: every case is executed in K fresh interpreters whose string-hash seeds were selected so that together they realise all orderings of the 2- and 3-element name sets involved (and most 4-element ones), and under permuted insertion orders of the face-link table; outcome digests (values, dims, coords, accept/reject) must be identical across all of them.",
     note="Hash-seed control covers sets of str/tuple/frozenset-of-str, which is every set in xgcm; address-hashed objects (ASLR) are not controlled. Exception messages are excluded from the digest (they may legitimately print a set)."),
  "C16": dict(engine="C-history", ref="DESIGN.md section 6.1",
-    technique="deterministic simulation: seeded registration histories with injected refusals, checked step by step against a sequential slot-registry reference model, plus regrouping equivalence; workers under 16 different string-hash seeds",
+    technique="deterministic simulation: seeded registration histories with injected refusals, checked step by step against a sequential slot-registry reference model, plus regrouping equivalence and direct registration of the final registry; refusal faults also inside the constructor; workers under 16 different string-hash seeds",
     text="Seeded exploration of registration histories (constructor entries + up to 4/6 set_metrics calls over a pool of 20 attributable metric variables) with refusal faults; after every step all get_metric reads are checked against a sequential model, and the same flattened registration sequence is re-executed under other batchings and must read identically.",
     note="Reads are attributed through values (each pool variable is a constant prime field). A refused multi-variable call is modelled strictly as one-at-a-time registration (prefix registered, rest untouched)."),
  "C18": dict(engine="C-history", ref="DESIGN.md section 6.2",
-    technique="deterministic simulation: seeded operation histories over shared argument objects with fault injection (ill-posed requests, raising user function, warnings escalated to exceptions, exception injected via sys.settrace at the k-th xgcm source line), in-memory and dask-backed (lazy) worlds, workers under 16 different string-hash seeds; oracle = pristine world snapshot + fresh-run outcome",
+    technique="deterministic simulation: seeded operation histories over shared argument objects with fault injection (ill-posed requests, raising user function, warnings escalated to exceptions, exception injected via sys.settrace at the k-th xgcm source line), in-memory and dask-backed (lazy) worlds, cold starts (the interrupted call re-executed as the first xgcm call of a fresh interpreter), workers under 16 different string-hash seeds; oracle = pristine world snapshot + fresh-run outcome",
     text="Seeded exploration of histories of 2-3 (thorough 2-5) public operations that share argument objects; after every step, returned or raised or interrupted at an arbitrary xgcm source line, a deep snapshot of every caller-owned object and of the Grid must equal the pristine snapshot, and the outcome must equal that of the same call issued first on fresh objects.",
     note="Snapshots cover observable state (values, dims, names, attrs, coords, mapping order and value identity, Grid axis settings and registry). transform runs under the numba stand-in. Concurrent callers are out of scope."),
 }
